@@ -503,12 +503,35 @@ MACRO_ITEMS = [
 ]
 
 
+def check_reserved_never_constructed(log):
+    """Caller assumption of bind_query_params / the emission skeletons: the parser never produces the reserved parameter variants
+    Option / With / Without.  Justified syntactically on every run: no expression of macros/src constructs them (every occurrence of
+    `ParseQueryParamType::Option(..)` etc. is a match pattern, i.e. is followed by `=>` or `|`)."""
+    root = os.path.join(REPO, 'macros', 'src')
+    for dp, _, files in os.walk(root):
+        for fn in files:
+            if not fn.endswith('.rs'):
+                continue
+            text = open(os.path.join(dp, fn)).read()
+            msk = rs.mask(text)
+            for m in re.finditer(r'\b(?:ParseQueryParamType|Self)\s*::\s*(Option|With|Without)\s*\(', msk):
+                if m.group(0).startswith('Self') and 'ParseQueryParamType' not in text:
+                    continue
+                close = rs.match_close(msk, m.end() - 1)
+                after = msk[close + 1:close + 40].lstrip()
+                if not (after.startswith('=>') or after.startswith('|') or after.startswith('if ')):
+                    raise ExtractError('A-reserved: %s constructs the reserved variant %s: the caller assumption of bind_query_params is no longer justified'
+                                       % (os.path.relpath(os.path.join(dp, fn), REPO), m.group(1)))
+    log.rule('A-reserved', 'no expression of macros/src constructs ParseQueryParamType::{Option, With, Without} (checked syntactically)')
+
+
 def build_macros_unit(cfg, n, outdir):
     gen = GenFile()
     gen.cfg, gen.n, gen.unit = cfg, n, 'macros'
     log = gen.log
     table = load_panic_table()
     sc = load_sidecar('macros.vsp', cfg)
+    check_reserved_never_constructed(log)
     stub = add_markers(open(os.path.join(CONTRACTS, 'macros_stub.rs')).read(), 'C:macros_stub.rs')
     body = []
     # one FileSpec per repo file: merge the items of the same file
